@@ -112,3 +112,55 @@ func vxOps(opts []Option, n int) {
 	}
 	vxCover("C14/ops")
 }
+
+
+// VxC14_OpsLong: the same for keys long enough to be stored in a chain of fragment
+// directories: two keys with a common part of 300 bytes and short symbolic tails (equal,
+// one a prefix of the other, or siblings in the last directory), plus a short key.
+func VxC14_OpsLong() {
+	c := vxNewCache()
+	common := ""
+	for i := 0; i < 30; i++ {
+		common += "0123456789"
+	}
+	keys := [3]string{common + vxStr("t0", vxChoice("t0.len", 3)), common + vxStr("t1", vxChoice("t1.len", 3)), vxStr("s", 1)}
+	model := map[string][]byte{}
+	for step := 0; step < 3; step++ {
+		s := string(rune('0' + step))
+		k := keys[vxChoice("key"+s, 3)]
+		switch vxChoice("op"+s, 4) {
+		case 0:
+			v := []byte(vxStr("v"+s, 1))
+			vxAssert(c.Set(k, v) == nil, "C14/set-failed")
+			model[k] = v
+		case 1:
+			got, err := c.Get(k)
+			if want, ok := model[k]; ok {
+				vxAssert(err == nil, "C14/get-of-present-key-failed")
+				vxAssert(err != nil || vxBytesEq(got, want), "C14/get-returned-other-bytes")
+			} else {
+				vxAssert(err != nil && errors.Is(err, driver.ErrNotExist), "C14/absent-key-not-reported-as-not-exist")
+			}
+		case 2:
+			err := c.Delete(k)
+			if _, ok := model[k]; ok {
+				vxAssert(err == nil, "C14/delete-of-present-key-failed")
+			} else {
+				vxAssert(err != nil && errors.Is(err, driver.ErrNotExist), "C14/delete-of-absent-key-not-reported")
+			}
+			delete(model, k)
+		default:
+			got, err := c.Keys("")
+			vxAssert(err == nil, "C14/keys-failed")
+			same := len(got) == len(model)
+			if same {
+				for _, g := range got {
+					_, ok := model[g]
+					same = same && ok
+				}
+			}
+			vxAssert(same, "C14/keys-listing-differs-from-live-keys")
+		}
+	}
+	vxCover("C14/ops-long")
+}
